@@ -86,6 +86,8 @@ def permute(p, keys):
 
 
 def swap(p, flags, pos=[0]):
+    if not flags:
+        return p
     if p[0] in ("join", "union"):
         a, b = swap(p[1], flags), swap(p[2], flags)
         f = flags[(len(json.dumps(p))) % len(flags)]
@@ -95,6 +97,8 @@ def swap(p, flags, pos=[0]):
 
 def reassoc(p, flags):
     """join is associative: { A } { { B } { C } } == { { A } { B } } { C } (every operand keeps its own braces, so FILTER / BIND scopes stay)"""
+    if not flags:
+        return p
     if p[0] == "join":
         a, b = reassoc(p[1], flags), reassoc(p[2], flags)
         f = flags[(len(json.dumps(p)) + 1) % len(flags)]
@@ -163,7 +167,8 @@ def respell(text, mode):
         return t, {}
     if mode == 0:
         return text, {}
-    t = re.sub(r"<urn:([A-Za-z][A-Za-z0-9]*)>", r"u:\1", text)
+    # (a local name may hold characters of the IRI that are reserved in the grammar when they are escaped with a backslash)
+    t = re.sub(r"<urn:([A-Za-z][A-Za-z0-9/~]*)>", lambda m: "u:" + re.sub(r"([/~])", r"\\\1", m.group(1)), text)
     t = re.sub(r"<http://www.w3.org/2001/XMLSchema#([A-Za-z]+)>", r"x:\1", t)
     if mode == 1:
         return "PREFIX u: <urn:>\nPREFIX x: <http://www.w3.org/2001/XMLSchema#>\n" + t, {}
@@ -181,6 +186,9 @@ def respell(text, mode):
 
 def run_rewrite(case):
     out = Out()
+    if case.get("iri_variant"):
+        # one of the IRIs of the case has a path and a tilde in it: as a prefixed name it is written u:c\/d\~e
+        case = json.loads(json.dumps(case).replace('"urn:c"', '"urn:c/d~e"'))
     pat = case["pattern"]
     if not c04.valid(pat) or (case["vars"] is not None and not case["vars"]):
         return out
@@ -265,7 +273,8 @@ def rewrite_cases(draw, tier):
           "swap": draw(st.booleans()), "flags": draw(st.lists(st.booleans(), min_size=3, max_size=3)),
           "rename": draw(st.one_of(st.none(), st.permutations(gs.VARS), st.just(["v1", "x", "zz", "A", "_u"]))),
           "spelling": draw(st.integers(0, 4)), "braces": draw(st.booleans()), "assoc": draw(st.booleans())}
-    return {"kind": kind, "data": data, "pattern": pat, "vars": vars_, "rewrite": rw, "flag": True if kind != "dataset" else draw(st.booleans())}
+    return {"kind": kind, "data": data, "pattern": pat, "vars": vars_, "rewrite": rw, "flag": True if kind != "dataset" else draw(st.booleans()),
+            "iri_variant": draw(st.booleans())}
 
 
 # ---------------------------------------------------------------- initBindings == VALUES
